@@ -559,6 +559,67 @@ func nontrivialSchemaCase(c *SCase) bool {
 	return n > 0
 }
 
+// C12 with default-setting on (Go side): schemas with defaults inside properties, arrays and
+// allOf / oneOf / anyOf branches (those of C13) read as a request or as a response, validated in default,
+// fail-fast and multi-error mode with DefaultsSet: the three verdicts must agree
+func modesWithDefaults(seed uint64, n int, meta *Meta) {
+	type dcase struct {
+		Schema *GSchema `json:"schema"`
+		Body   string   `json:"value"`
+		AsResp bool     `json:"as_response"`
+	}
+	var cases []dcase
+	kind := func(v string) *GSchema { return &GSchema{HasTypes: true, Types: []string{"string"}, Enum: []any{v}} }
+	open := &GSchema{HasTypes: true, Types: []string{"object"}, Required: []string{"kind"}, Props: map[string]*GSchema{"kind": kind("a"), "extra": {HasTypes: true, Types: []string{"integer"}, Default: 1.0}}}
+	closed := &GSchema{HasTypes: true, Types: []string{"object"}, Required: []string{"kind"}, Props: map[string]*GSchema{"kind": kind("b")}, ApHas: bp(false)}
+	for _, asResp := range []bool{false, true} {
+		cases = append(cases, dcase{&GSchema{OneOf: []*GSchema{open, closed}}, `{"kind":"b"}`, asResp}, dcase{&GSchema{AnyOf: []*GSchema{open, closed}}, `{"kind":"b"}`, asResp},
+			dcase{&GSchema{OneOf: []*GSchema{closed, open}}, `{"kind":"a"}`, asResp},
+			dcase{&GSchema{HasTypes: true, Types: []string{"array"}, Items: &GSchema{OneOf: []*GSchema{open, closed}}}, `[{"kind":"b"},{"kind":"a"}]`, asResp})
+	}
+	for _, d := range c13Directed() {
+		if d.BodySchema != nil && d.Body != "" && !d.Skip {
+			cases = append(cases, dcase{d.BodySchema, d.Body, false}, dcase{d.BodySchema, d.Body, true})
+		}
+	}
+	r := NewRng(seed ^ 0xdefa017)
+	for i := 0; i < n; i++ {
+		c := c13Random(r)
+		if c.BodySchema != nil && c.Body != "" {
+			cases = append(cases, dcase{c.BodySchema, c.Body, r.Bool()})
+		}
+	}
+	for _, c := range cases {
+		var val any
+		if json.Unmarshal([]byte(c.Body), &val) != nil {
+			continue
+		}
+		s := c.Schema.ToOpenAPI()
+		base := openapi3.VisitAsRequest()
+		if c.AsResp {
+			base = openapi3.VisitAsResponse()
+		}
+		var verdicts []string
+		for _, extra := range [][]openapi3.SchemaValidationOption{nil, {openapi3.FailFast()}, {openapi3.MultiErrors()}} {
+			opts := append([]openapi3.SchemaValidationOption{base, openapi3.DefaultsSet(func() {})}, extra...)
+			var err error
+			v := "accepted"
+			if p := catchPanic(func() { err = s.VisitJSON(deepCopyJSON(val), opts...) }); p != nil {
+				v = "panic"
+			} else if err != nil {
+				v = "rejected"
+			}
+			verdicts = append(verdicts, v)
+		}
+		meta.Histogram["with defaults: "+verdicts[0]]++
+		if verdicts[0] != verdicts[1] || verdicts[0] != verdicts[2] {
+			meta.GoViolation = append(meta.GoViolation, map[string]any{"signature": "verdict-depends-on-mode:with-defaults", "cases": []any{c}, "go_observation": verdicts,
+				"judgement": "default / fail-fast / multi-error verdicts with default-setting on: " + strings.Join(verdicts, " / ")})
+		}
+	}
+	meta.Histogram["with defaults: cases"] = len(cases)
+}
+
 func schemaRunner(prop string, gopts SchemaGenOpts, rule string, post func(c *SCase, o *SObs, meta *Meta, idx int)) runner {
 	return func(seed uint64, n int, outDir string, replay string) {
 		var cases []SCase
@@ -605,6 +666,9 @@ func schemaRunner(prop string, gopts SchemaGenOpts, rule string, post func(c *SC
 			if post != nil {
 				post(c, &o, meta, i)
 			}
+		}
+		if prop == "C12" && replay == "" {
+			modesWithDefaults(seed, n/4, meta)
 		}
 		meta.NCases = len(cases)
 		meta.Files = writeCases(outDir, "From KV Require Import Model.Base Model.Json Model.Schema Exec.SchemaExec.", "scase", "judge_"+prop, terms, meta.Shard)
